@@ -232,11 +232,14 @@ def render(prog, fname, occ, indent=0, lines=None):
                     if j:
                         text += ", "
                     occ[it["oid"]] = {"f": fname, "line": len(lines), "col": len(text), "len": len(it["name"]), "name": it["name"], "def": False}
+                    c0 = len(text)
                     text += it["name"]
                     if it["alias"]:
                         text += " as "
                         occ[it["aoid"]] = {"f": fname, "line": len(lines), "col": len(text), "len": len(it["alias"]), "name": it["alias"], "def": False}
                         text += it["alias"]
+                        # the server treats the whole argument `a as x` as ONE occurrence (a location with this range stands for both tokens)
+                        occ[it["oid"]]["arg"] = occ[it["aoid"]]["arg"] = [c0, len(text)]
             else:
                 text = pad + ".import *"
             text += ' from "%s"' % st["file"]
